@@ -17,10 +17,14 @@ ENGINE = "E-HIST (explicit-state BFS over heap fingerprints + all short call his
 RULE = (
     "a pool of parse calls touching every side channel named in the anchors (plain, failing, failing macro, call / with / "
     "subprocess macros, unterminated macro, path literals, f-strings, string+f-string concatenation, multi-line string, "
-    "version-gated syntax under a low py_version, eval mode). (1) Histories: every sequence of pool calls up to the plain "
-    "bound, and a breadth-first search whose state is the canonical fingerprint of the library's process-global state "
-    "(module / class attributes, defaults, closures, singleton nodes, lru_cache keys) expanded once per state up to the "
-    "BFS depth; on every transition the outcome must equal the outcome of the same call in a fresh interpreter (computed "
+    "version-gated syntax under a low py_version, eval mode, raw and non-raw f-strings of one quote style, a diagnostic of "
+    "the second pass, and two inputs nested 6 levels below / above the depth at which a fresh interpreter starts to answer "
+    "'too many nested ...'). Every history and every pair of threads starts in a forked copy of a process that has imported "
+    "the library and parsed nothing (recursion limit pinned to 3000 in every process, calls made on a fresh thread). "
+    "(1) Histories: every sequence of pool calls up to the plain bound; one long history in a single process in which every "
+    "ordered pair of calls occurs consecutively; and breadth-first searches (one per first call) whose state is the "
+    "canonical fingerprint of the library's process-global state (module / class attributes, defaults, closures, singleton "
+    "nodes, lru_cache keys and cached values) expanded once per state up to the BFS depth; on every transition the outcome must equal the outcome of the same call in a fresh interpreter (computed "
     "under two PYTHONHASHSEEDs that must agree) and every tree returned earlier in the history must still dump "
     "identically. (2) Schedules: two threads, each one pool call, under a cooperative scheduler whose scheduling points "
     "are the 'call' events inside peg_parser; ALL schedules with at most one preemption for the ordered pairs of the bound "
@@ -28,14 +32,14 @@ RULE = (
     "interpreter outcome. Non-trivial = histories of length >= 2 and schedules with a real preemption (distinct)."
 )
 BOUND = {
-    "quick": "all histories of length <= 2 (plus repeats a,a,a); fingerprint BFS depth 3; all <=1-preemption schedules for 16 ordered pairs",
-    "thorough": "all histories of length <= 3; fingerprint BFS depth 5; all <=1-preemption schedules for all ordered pairs; 2 preemptions on 12 pairs",
+    "quick": "all histories of length <= 2 over 24 calls (plus repeats a,a,a); the all-pairs chain (1152 calls); fingerprint BFS depth 3 from each first call; all <=1-preemption schedules for 16 ordered pairs",
+    "thorough": "all histories of length <= 3 over 24 calls; the all-pairs chain; fingerprint BFS depth 5 from each first call; all <=1-preemption schedules for all ordered pairs; 2 preemptions on 12 pairs",
 }
 ASSUMPTIONS = [
     "threads are explored at 'call' granularity under the GIL; compiled (mypyc/Cython) builds and state inside the standard "
     "library (re, textwrap) are not covered",
-    "values held inside a bounded functools.lru_cache are not reachable for the fingerprint (keys and size are); the "
-    "un-deduplicated histories cover that gap up to their bound",
+    "the deeply nested inputs are parsed on a fresh thread in every process, so that the stack available to them does not "
+    "depend on the caller",
 ]
 CASE_DEADLINE = 120.0
 CONFIRM_DEADLINE = 300.0
@@ -59,14 +63,34 @@ POOL: list[tuple[str, str, Any]] = [
     ("'c'\n", "exec", None),
     ("$(echo!)\n", "exec", None),
     ("r = !(ls $HOME `*.py` @(x))\n", "exec", None),
+    # the same lru_cached pattern builders under different keys: raw / non-raw f-strings of one quote style
+    ("w = rf'\\N{x}'\n", "exec", None),
+    ('k = f"""{a}\n"""\n', "exec", None),
+    ('l = rf"""\\N{b}"""\n', "exec", None),
+    ("[a = 1]\n", "exec", None),
 ]
+N_FIXED = len(POOL)  # entries after this index are the 'deep' inputs appended by expected()
 
 
 def outcome_of(i: int) -> list:
+    return outcome_of_call(*POOL[i])
+
+
+def outcome_in_thread(i: int) -> list:
+    """The call on a fresh thread: the stack depth at the call is then the same in every process and history, which makes
+    the outcome of the deeply nested inputs (accepted / 'too many nested ...') a function of the text alone."""
+    box: list = []
+    t = threading.Thread(target=lambda: box.append(outcome_of_call(*POOL[i])))
+    t.start()
+    t.join()
+    return box[0]
+
+
+def outcome_of_call(src: str, mode: str, ver: Any) -> list:
     from peg_parser.parser import XonshParser
     from peg_parser.tokenize import TokenError
 
-    src, mode, ver = POOL[i]
+    ver = tuple(ver) if ver else None
     try:
         tree = XonshParser.parse_string(src, mode=mode, py_version=ver)
     except SyntaxError as e:
@@ -85,16 +109,11 @@ def expected() -> list[list]:
     """Outcome of every pool call in a FRESH interpreter (two hash seeds, which must agree)."""
     global _EXPECTED
     if _EXPECTED is None:
-        code = (
-            "import sys, json; sys.path.insert(0, %r); sys.path.insert(0, %r)\n"
-            "from xpmc.props import c13\n"
-            "o = c13.outcome_of(int(sys.argv[1])); print(json.dumps(o[:2] if o[0] == 'tree' else o))\n"
-        ) % (env.VERIF, env.REPO)
+        _add_deep_inputs()
         procs = {}
         for seed in ("0", "4711"):
-            e = dict(os.environ, PYTHONHASHSEED=seed, PYTHONDONTWRITEBYTECODE="1")
             for i in range(len(POOL)):  # one fresh interpreter per (input, seed)
-                procs[(seed, i)] = subprocess.Popen([env.PY, "-c", code, str(i)], stdout=subprocess.PIPE, stderr=subprocess.PIPE, text=True, env=e)
+                procs[(seed, i)] = _fresh(POOL[i], seed)
         outs: dict[str, list] = {"0": [], "4711": []}
         for (seed, i), p in procs.items():
             so, se = p.communicate(timeout=120)
@@ -107,6 +126,58 @@ def expected() -> list[list]:
     return _EXPECTED
 
 
+_FRESH_CODE = (
+    "import sys, json, threading; sys.path.insert(0, %r); sys.path.insert(0, %r)\n"
+    "from xpmc.props import c13\n"
+    "c13.pin_limit()\n"
+    "box = []\n"
+    "t = threading.Thread(target=lambda: box.append(c13.outcome_of_call(*json.loads(sys.argv[1])))); t.start(); t.join()\n"
+    "o = box[0]; print(json.dumps(o[:2] if o[0] == 'tree' else o))\n"
+)
+
+
+def _fresh(call: tuple, seed: str) -> subprocess.Popen:
+    e = dict(os.environ, PYTHONHASHSEED=seed, PYTHONDONTWRITEBYTECODE="1")
+    return subprocess.Popen([env.PY, "-c", _FRESH_CODE % (env.VERIF, env.REPO), json.dumps(list(call))], stdout=subprocess.PIPE,
+                            stderr=subprocess.PIPE, text=True, env=e)
+
+
+def _deep(n: int) -> tuple[str, str, Any]:
+    return ("(" * n + "1" + ")" * n + "\n", "exec", None)
+
+
+def _add_deep_inputs() -> None:
+    """Two inputs around the nesting depth at which a fresh interpreter (parse called on a fresh thread) starts to answer
+    'too many nested ...': 6 levels below (accepted) and 6 levels above (rejected).  The stack a parse may use is process
+    state the library could alter; these are the inputs whose outcome shows it."""
+    if len(POOL) > N_FIXED:
+        return
+
+    def accepted(n: int) -> bool:
+        p = _fresh(_deep(n), "0")
+        so, se = p.communicate(timeout=120)
+        if p.returncode != 0:
+            raise RuntimeError("fresh interpreter failed: " + se[-500:])
+        return json.loads(so.strip().splitlines()[-1])[0] == "tree"
+
+    lo, hi = 4, 400
+    if not accepted(lo) or accepted(hi):
+        return  # no threshold inside the range: nothing to add
+    while hi - lo > 1:
+        mid = (lo + hi) // 2
+        if accepted(mid):
+            lo = mid
+        else:
+            hi = mid
+    if lo - 6 >= 1:
+        POOL.append(_deep(lo - 6))
+    POOL.append(_deep(hi + 6))
+    DEEP_INFO.update({"last_accepted_nesting": lo, "first_rejected_nesting": hi})
+
+
+DEEP_INFO: dict = {}
+
+
 def units(tier: str) -> list[tuple]:
     expected()  # computed once in the parent; forked workers inherit it
     n = len(POOL)
@@ -114,8 +185,10 @@ def units(tier: str) -> list[tuple]:
     depth = 2 if tier == "quick" else 3
     for i in range(n):
         us.append(("hist", i, depth))
-    us.append(("bfs", 3 if tier == "quick" else 5))
-    pairs = [(a, b) for a in range(n) for b in range(n)]
+    for i in range(n):
+        us.append(("bfs", 3 if tier == "quick" else 5, i))
+    us.append(("chain",))
+    pairs = [(a, b) for a in range(N_FIXED) for b in range(N_FIXED)]  # the deep inputs have thousands of scheduling points: histories only
     if tier == "quick":
         # macro / path-literal / concatenation / failing-macro calls against plain calls and against each other
         pairs = [(3, 0), (3, 3), (3, 14), (14, 3), (4, 0), (4, 4), (4, 3), (5, 0), (5, 16), (8, 10), (8, 15), (10, 8), (7, 15), (14, 15), (6, 3), (16, 5)]
@@ -137,7 +210,9 @@ def cases(unit: tuple) -> Iterator[dict]:
             for rest in itertools.product(range(len(POOL)), repeat=m):
                 yield {"hist": [first, *rest]}
     elif k == "bfs":
-        yield {"bfs": unit[1]}
+        yield {"bfs": unit[1], "root": unit[2]}
+    elif k == "chain":
+        yield {"chain": True}
     else:
         yield {"sched": [unit[1], unit[2]], "preemptions": unit[3]}
 
@@ -152,18 +227,23 @@ def run_history(hist: list[int], acc: Any, case: dict) -> bool:
     exp = expected()
     held: list[tuple[int, Any, str]] = []
     for step, i in enumerate(hist):
-        o = outcome_of(i)
+        o = outcome_in_thread(i)
         acc.ran()
         got = o[:2] if o[0] == "tree" else o
         if got != exp[i]:
+            if "chain" in case:
+                case = {"hist": hist[: step + 1]}  # the prefix is the replayable history
             acc.violation(f"HISTORY outcome differs from a fresh interpreter ({exp[i][0]}->{got[0]}) call={_name(i)}", case,
                           {"step": step, "fresh": _short(exp[i]), "got": _short(got)})
             return False
         if o[0] == "tree":
             held.append((i, o[2], o[1]))
-        # trees returned earlier must not have been altered by this call
-        for j, tree, dumped in held:
+        # trees returned earlier must not have been altered by this call (all of them at the end of a long history,
+        # the latest 32 at every step)
+        for j, tree, dumped in (held if len(held) <= 32 or step == len(hist) - 1 else held[-32:]):
             if ast.dump(tree, include_attributes=True) != dumped:
+                if "chain" in case:
+                    case = {"hist": hist[: step + 1]}
                 acc.violation(f"HISTORY a tree returned earlier was altered by a later call (earlier={_name(j)} later={_name(i)})", case, {"step": step})
                 return False
     return True
@@ -174,40 +254,49 @@ def _short(o: list) -> list:
 
 
 def _name(i: int) -> str:
-    return repr(POOL[i][0][:24])
+    src = POOL[i][0]
+    return repr(src[:24]) if i < N_FIXED else f"'(' * {src.count('(')} + '1' + ')' * {src.count('(')}"
+
+
+def chain() -> list[int]:
+    """One long history in a single process: every ordered pair of pool calls occurs consecutively in it."""
+    n = len(POOL)
+    out: list[int] = []
+    for a in range(n):
+        for b in range(n):
+            out += [a, b]
+    return out
 
 
 def bfs(depth: int, acc: Any, case: dict) -> None:
+    """Breadth-first search rooted at one first call (the roots are explored side by side by the pool's workers)."""
     from ..oracle import heapfp
 
+    root = case["root"]
     start = heapfp.fingerprint()[0]
     seen = {start}
-    frontier: list[list[int]] = [[]]
+    frontier: list[list[int]] = []
     transitions = 0
-    ok = True
     for d in range(depth):
         nxt: list[list[int]] = []
-        for hist in frontier:
-            for i in range(len(POOL)):
-                h = hist + [i]
-                # the BFS runs inside one long-lived worker: the state after `h` is reached by replaying h from the
-                # state left by the previous history only if fingerprints say it is the start state again; otherwise the
-                # history is replayed in a forked child (fresh copy of the start state)
-                fp, good = _replay_in_child(h, case)
-                transitions += 1
-                acc.ran(len(h))
-                if not good:
-                    ok = False
-                    acc.violation(*_BFS_FAIL[0])
-                    _BFS_FAIL.clear()
-                    return
-                if fp not in seen:
-                    seen.add(fp)
-                    nxt.append(h)
+        for h in ([[root]] if d == 0 else [hist + [i] for hist in frontier for i in range(len(POOL))]):
+            # the state after `h` is reached by replaying h in a forked copy of this (start-state) process
+            fp, good = _replay_in_child(h, case)
+            transitions += 1
+            acc.ran(len(h))
+            if not good:
+                acc.violation(*_BFS_FAIL[0])
+                _BFS_FAIL.clear()
+                return
+            if fp not in seen:
+                seen.add(fp)
+                nxt.append(h)
         frontier = nxt
         if not frontier:
             break
-    acc.notes["bfs"] = {"states": len(seen), "transitions": transitions, "depth": depth, "frontier_emptied": not frontier, "ok": ok}
+    acc.notes["bfs_states"] = acc.notes.get("bfs_states", 0) + len(seen) - 1
+    acc.notes["bfs_transitions"] = acc.notes.get("bfs_transitions", 0) + transitions
+    acc.notes["bfs_roots_emptied"] = acc.notes.get("bfs_roots_emptied", 0) + (0 if frontier else 1)
 
 
 _BFS_FAIL: list[tuple] = []
@@ -340,14 +429,56 @@ def explore_schedules(a: int, b: int, preemptions: int, acc: Any, case: dict) ->
     acc.state(na * len(ms))
 
 
+_PINNED = False
+LIMIT = 3000  # the recursion limit every process of this check starts from (the pool's workers use the same)
+
+
+def pin_limit() -> None:
+    """Once per process, never again: a later call would undo (and hide) a change made by the library."""
+    global _PINNED
+    if not _PINNED:
+        _PINNED = True
+        sys.setrecursionlimit(LIMIT)
+
+
 def check_case(case: dict, acc: Any) -> None:
+    """Every history and every pair of threads starts from the state of a process that has imported the library and
+    parsed nothing: the case runs in a forked copy of this process, which itself never parses.  (So a replay file
+    reproduces exactly what was explored; the 'chain' case is the one long history in a single process.)"""
+    pin_limit()
+    expected()
+    if "bfs" in case:
+        bfs(case["bfs"], acc, case)  # forks one child per history itself
+        return
+    from ..core.acc import Acc
+    from ..core.pool import fork_run
+
+    def child() -> Any:
+        a = Acc(ID, acc.seed)
+        _check_in_child(case, a)
+        return a
+
+    st, sub = fork_run(child, CASE_DEADLINE - 10)
+    if st != "ok":
+        acc.violation(f"CHILD {st} ({'history' if 'hist' in case or 'chain' in case else 'schedule'})", case, None)
+        return
+    nt = sub.nt
+    sub.nt = type(nt)("q")
+    acc.merge(sub)
+    acc.nt.extend(nt)
+
+
+def _check_in_child(case: dict, acc: Any) -> None:
     if "hist" in case:
         if len(case["hist"]) >= 2:
             acc.nontrivial(tuple(case["hist"]))
         if run_history(case["hist"], acc, case):
             acc.count("history-ok")
-    elif "bfs" in case:
-        bfs(case["bfs"], acc, case)
+    elif "chain" in case:
+        hist = chain()
+        acc.nontrivial(("chain", len(hist)))
+        if run_history(hist, acc, case):
+            acc.count("chain-ok")
     else:
         a, b = case["sched"]
         if "k" in case and case["k"] is not None:
@@ -363,7 +494,8 @@ def check_case(case: dict, acc: Any) -> None:
 
 
 def finalize(acc: Any, tier: str) -> dict:
-    b = acc.notes.get("bfs") or {}
+    b = {"states": 1 + acc.notes.get("bfs_states", 0), "transitions": acc.notes.get("bfs_transitions", 0), "roots": len(POOL),
+         "roots_whose_frontier_emptied": acc.notes.get("bfs_roots_emptied", 0), "deep_inputs": DEEP_INFO}
     so = acc.notes.get("schedule_outcomes") or []
     return {"bfs": b, "schedules": acc.transitions, "distinct_outcomes_per_pair_max": max(so) if so else 0,
-            "states": acc.cases + b.get("states", 0) + acc.states, "transitions": acc.cases + b.get("transitions", 0) + acc.transitions}
+            "states": acc.cases + b["states"] + acc.states, "transitions": acc.cases + b["transitions"] + acc.transitions}
